@@ -1,0 +1,58 @@
+//go:build verif
+// +build verif
+
+package flags
+
+import (
+	"reflect"
+)
+
+// This file is compiled only with the "verif" build tag. It exposes a few
+// unexported helpers to the external verification harness; it changes no
+// behaviour and is not part of the normal build.
+
+// VerifLevenshtein exposes levenshtein.
+func VerifLevenshtein(s string, t string) int {
+	return levenshtein(s, t)
+}
+
+// VerifClosestChoice exposes closestChoice.
+func VerifClosestChoice(cmd string, choices []string) (string, int) {
+	return closestChoice(cmd, choices)
+}
+
+// VerifWrapText exposes wrapText.
+func VerifWrapText(s string, l int, prefix string) string {
+	return wrapText(s, l, prefix)
+}
+
+// VerifScanTag exposes multiTag.scan.
+func VerifScanTag(v string) (map[string][]string, error) {
+	t := newMultiTag(v)
+	return t.scan()
+}
+
+// VerifConvert exposes convert; tag is a raw struct tag string.
+func VerifConvert(val string, retval reflect.Value, tag string) error {
+	return convert(val, retval, newMultiTag(tag))
+}
+
+// VerifConvertToString exposes convertToString; tag is a raw struct tag string.
+func VerifConvertToString(val reflect.Value, tag string) (string, error) {
+	return convertToString(val, newMultiTag(tag))
+}
+
+// VerifUnquoteIfPossible exposes unquoteIfPossible.
+func VerifUnquoteIfPossible(s string) (string, error) {
+	return unquoteIfPossible(s)
+}
+
+// VerifQuoteIfNeeded exposes quoteIfNeeded.
+func VerifQuoteIfNeeded(s string) string {
+	return quoteIfNeeded(s)
+}
+
+// VerifArgumentIsOption exposes argumentIsOption.
+func VerifArgumentIsOption(s string) bool {
+	return argumentIsOption(s)
+}
